@@ -202,7 +202,7 @@ def _vacuity_pass(ex, res, scratch, rlimit, extra_args, timeout):
         if label not in cp:
             continue
         new = cp[label].split("\n")
-        lines[a - 1:b] = new
+        lines[b:b] = new   # keep the original (other functions may call it), add the copy after it
     vtext = "\n".join(lines)
     # recompute spans by scanning for __vacuity fn names
     fname = res.file.replace(".rs", "__vacuity.rs")
